@@ -12,7 +12,7 @@ PROPS = {
     "C03": {
         "families": [("ipm", {"quick": 2400, "thorough": 120000}, None),
                      ("fsx", {"quick": 700, "thorough": 40000}, {"mode": "hist"})],
-        "wall": {"quick": 150, "thorough": 1500},
+        "wall": {"quick": 240, "thorough": 2700},
         "rule": "one evaluation = one seeded plan (configurations + 5-40 requests on live anonymizers, restarts, forks, dumps) "
                 "executed against the real code, every answer compared with the cold twin; distinct = distinct schedule "
                 "signature (configuration class + op-kind sequence with memo hit depth); non-trivial = a request's walk met "
@@ -24,7 +24,7 @@ PROPS = {
     "C02": {
         "families": [("ipm", {"quick": 2400, "thorough": 120000}, None),
                      ("fsx", {"quick": 1500, "thorough": 80000}, {"mode": "undo"})],
-        "wall": {"quick": 150, "thorough": 1500},
+        "wall": {"quick": 240, "thorough": 2700},
         "rule": "one evaluation = one seeded plan; every answered request is undone/redone by a cold twin in another simulated "
                 "process; non-trivial = the undo was answered on a cold memo for an address whose forward image came from another "
                 "instance/process or from a warm history (>= 2 requests), or a file-level undo followed a restart",
@@ -32,7 +32,7 @@ PROPS = {
     },
     "C17": {
         "families": [("ipm", {"quick": 2400, "thorough": 120000}, None), ("fs", {"quick": 2000, "thorough": 100000}, None)],
-        "wall": {"quick": 150, "thorough": 1500},
+        "wall": {"quick": 240, "thorough": 2700},
         "rule": "one evaluation = one seeded plan with dump operations at arbitrary points of a request history; non-trivial = the "
                 "dump followed >= 2 forward requests or >= 1 inverse request on that instance",
         "assumptions": _COMMON_ASSUMPTIONS,
